@@ -24,10 +24,20 @@ Targets ==
   \o [i \in FnIdx(S) |-> [ty |-> S.functions[i].ctor, op |-> "Call"]]
 NT == Len(Targets)
 
+\* long-vector jobs (checks/c10.py writes longjobs.json from the Go element sizes the driver reports): job j is vector
+\* number JobBase + j - 1; the vector in field `field` of constructor / function `decl` gets exactly n elements
+Jobs    == JsonDeserialize("longjobs.json")
+JobBase == 1000000
+Raw(n) ==
+  IF n >= JobBase
+    THEN LET j == Jobs[n - JobBase + 1] IN
+         VecOfOv(S, [ty |-> j.ty, op |-> j.op], n, B4(Seed) \o B4(n), 0, [decl |-> j.decl, field |-> j.field, n |-> j.n])
+           @@ [cls |-> "long-vector", decl |-> j.decl, field |-> j.field, len |-> j.n]
+    ELSE VecOf(S, Targets[(n % NT) + 1], n, B4(Seed) \o B4(n), n \div NT)
 \* a Call vector additionally carries the scripted adnl.message.answer split around the query id,
 \* which only the client knows: answer = ans_pre ++ query_id ++ ans_suf
 Vec(n) ==
-  LET x == VecOf(S, Targets[(n % NT) + 1], n, B4(Seed) \o B4(n), n \div NT) IN
+  LET x == Raw(n) IN
   IF x.op # "Call" THEN x
   ELSE LET ans == Enc(S, "adnl.Message", [_ |-> "adnl.message.answer", query_id |-> BytesToHex(ZeroBytes(32)), answer |-> x.body])
        IN x @@ [ans_pre |-> BytesToHex(SubSeq(ans, 1, 4)), ans_suf |-> BytesToHex(SubSeq(ans, 37, Len(ans)))]
